@@ -1,2 +1,2 @@
 SPECIFICATION Spec
-INVARIANTS TypeOK MsgsPrefix OkMeansAll TerminalUnique TermSource HeaderReads HeaderFrozen TrailerReads ServerGotClientMsgs PendingIsBlocked NoDeadEnd
+INVARIANTS TypeOK MsgsPrefix OkMeansAll TerminalUnique TermSource HeaderReads HeaderFrozen TrailerReads ServerGotClientMsgs PendingIsBlocked NoDeadEnd QuietAfterSeenCancel
